@@ -137,6 +137,16 @@ func scenario(param string) vsched.Scenario {
 				if sp.kind == "sendErr" {
 					c.Send(target, []byte("p2"))
 				}
+			case "port0":
+				// an established session, then a datagram whose destination the kernel rejects every time
+				// (port 0: sendmsg fails with EINVAL), then ordinary traffic again
+				c.Send(target, []byte("p1"))
+				firstEcho = recvEcho("echo:p1")
+				if sp.server != "direct" {
+					c.Send(conn.AddrFromIPPort(netip.AddrPortFrom(t.Addr.Addr(), 0)), []byte("to-port-0"))
+				}
+				c.Send(target, []byte("p2"))
+				secondEcho = recvEcho("echo:p2")
 			case "twoStop":
 				c2 := env.NewClient(1, 0)
 				c.Send(target, []byte("p1"))
@@ -192,6 +202,10 @@ func scenario(param string) vsched.Scenario {
 				if secondEcho != "echo:p2" {
 					return obs, "a packet after eviction did not get a reply through a new session: " + secondEcho
 				}
+			case "port0":
+				if firstEcho != "echo:p1" || secondEcho != "echo:p2" {
+					return obs, "traffic after a datagram with an unsendable destination is no longer relayed: " + firstEcho + " / " + secondEcho
+				}
 			case "timeoutRace":
 				if secondEcho != "echo:p3" {
 					return obs, "a packet after eviction did not get a reply through a new session: " + secondEcho
@@ -222,7 +236,7 @@ func family(c *harness.Check) []string {
 	var out []string
 	for _, sv := range []string{"none", "ss2022", "socks5", "direct"} {
 		for _, b := range []string{"no", "sendmmsg"} {
-			for _, k := range []string{"evict", "timeoutRace", "stopBusy", "stopInit", "reject", "sendErr", "twoStop"} {
+			for _, k := range []string{"evict", "timeoutRace", "stopBusy", "stopInit", "reject", "sendErr", "twoStop", "port0"} {
 				if !c.Thorough() && (sv == "socks5" || sv == "direct") && (k == "timeoutRace" || k == "twoStop" || k == "reject") {
 					continue
 				}
